@@ -108,3 +108,46 @@ Theorem expected_end_cases o s :
   (co_unsatisfied o = false -> expected_end o s = return_state s) /\
   (co_unsatisfied o = true -> expected_end o s = SError).
 Proof. unfold expected_end. split; intros ->; reflexivity. Qed.
+
+(* ---------- C17: retention in the product ---------- *)
+From Acts.Proofs Require Import ImageProofs.
+(* what the store holds of a process once it has ended, with keep_processes off: nothing *)
+Definition dropped (e : eng) : Prop := is_completed (pstate e) = true -> rows e = [] /\ prow e = None.
+Lemma retire_dropped e : dropped (retire false e).
+Proof. unfold dropped, retire. destruct (is_completed (pstate e)) eqn:E; cbn; [auto | intros H; cbn in H; congruence]. Qed.
+Lemma rstep_length keep s x : length (rstep keep s x) = length s.
+Proof. destruct x; simpl; [apply upd_length | apply map_length]. Qed.
+Lemma nth_map_retire keep (s : sys) o p : p < length s ->
+  nth p (map (fun e => retire keep (apply_op e o)) s) deng = retire keep (apply_op (nth p s deng) o).
+Proof.
+  intros H. rewrite (nth_indep _ deng (retire keep (apply_op deng o))) by (rewrite map_length; exact H).
+  exact (map_nth (fun e => retire keep (apply_op e o)) s deng p).
+Qed.
+Theorem retention_drop xs : forall s, (forall p, p < length s -> dropped (nth p s deng)) ->
+  forall p, p < length (rrun false s xs) -> dropped (nth p (rrun false s xs) deng).
+Proof.
+  induction xs as [|x xs IH]; intros s H p Hp; cbn [rrun fold_left] in *; [now apply H|].
+  apply IH; [|exact Hp]. intros q Hq. rewrite rstep_length in Hq. destruct x as [r o | o]; cbn [rstep].
+  - rewrite upd_nth. destruct (Nat.eqb q r && Nat.ltb r (length s)); [apply retire_dropped | now apply H].
+  - rewrite nth_map_retire by exact Hq. apply retire_dropped.
+Qed.
+(* with keep_processes on the rule does nothing: the product is the plain product, every component's store image
+   stays complete (C11), whatever the other processes do *)
+Lemma rrun_keep s xs : rrun true s xs = srun s xs.
+Proof.
+  assert (E : forall s' x, rstep true s' x = sstep s' x).
+  { intros s' x. destruct x; cbn [rstep sstep retire]; [reflexivity|]. apply map_ext. reflexivity. }
+  unfold rrun, srun. revert s; induction xs as [|x xs IH]; intros s; cbn [fold_left]; [reflexivity|].
+  rewrite E. apply IH.
+Qed.
+Theorem retention_keep xs : forall s, (forall p, p < length s -> image_ok (nth p s deng)) ->
+  forall p, p < length s -> image_ok (nth p (rrun true s xs) deng).
+Proof.
+  intros s H p Hp. rewrite rrun_keep, (isolation xs s p Hp).
+  assert (G : forall ops e, image_ok e -> image_ok (fold_left apply_op ops e)).
+  { induction ops as [|o ops IHo]; intros e He; cbn [fold_left]; [exact He | apply IHo, image_apply_op, He]. }
+  apply G, H, Hp.
+Qed.
+(* removing one process touches no other: an operation on process r leaves every other component as it was *)
+Theorem retention_others keep s r o q : q <> r -> nth q (rstep keep s (SOp r o)) deng = nth q s deng.
+Proof. intros H. cbn [rstep]. rewrite upd_nth. destruct (Nat.eqb_spec q r); [contradiction | reflexivity]. Qed.
